@@ -56,12 +56,12 @@ PROPS = {
         explanation='silent states and wire armour as theorems (Props.C03); Go oracle searches every wire output (raw, base64-decoded, reassembled fragments) for every text sent while encrypted / finished / under required encryption over lifecycle histories under random policy sets',
         assumptions=['secrecy of AES-CTR and of the DH-derived keys is assumed (ideal crypto)', 'noninterference of the other message fields is checked by the oracle, not proved']),
     'C01': dict(
-        module='Props.C01', level='proof',
+        module='Props.C01', extra_modules=['Props.C01Recv'], level='proof',
         profiles=dict(quick=[('ake', 120, 1)], thorough=[('ake', 800, 8), ('life', 150, 4)]),
         explanation='decision-logic theorems over all states and byte strings (Props.C01: the only paths to the encrypted state, the complete list of checks a finishing step implies, the values reported afterwards); tied to ake.go/auth_state_machine.go by whole-handshake differential runs under an active attacker; Go oracle after every delivery: an encrypted conversation reports the key of a party that derived the same SSID; agreement, complementary halves, mutual readability',
         assumptions=['unforgeability of DSA, HMAC-SHA256 and collision resistance of SHA-256 for the cross-session / impersonation part (ideal crypto, DESIGN §6)', CRYPTO_ASSUME]),
     'C02': dict(
-        module='Props.C02', level='proof',
+        module='Props.C02', extra_modules=['Props.C02Recv'], level='proof',
         profiles=dict(quick=[('reject', 80, 1), ('sched', 6, 1)], thorough=[('reject', 600, 8), ('life', 150, 4)]),
         explanation='guard theorem for every state and byte string (Props.C02: anything delivered or acted upon passed parse, key-window, MAC over exactly the received authenticated bytes, and counter checks; every failure case returns nothing and changes nothing); Go oracle injects mutated, truncated, forged and replayed data messages into live sessions at random ratchet positions',
         assumptions=['a MAC valid under an undisclosed key was produced by the peer (HMAC unforgeability, ideal crypto)', CRYPTO_ASSUME]),
@@ -102,7 +102,7 @@ PROPS = {
         assumptions=['DH commutativity and pairwise distinct public keys (hypotheses of c04_key_agreement)', 'key ids < 2^32, counters < 2^64', 'texts without NUL (the guard of the property itself)']),
     'C10': dict(
         module='Props.C10', level='proof',
-        profiles=dict(quick=[('spec', 12, 1), ('pure', 2000, 1)], thorough=[('spec', 120, 8), ('sched', 20, 2), ('smp', 60, 2), ('policy', 500, 1), ('frag', 20, 2)]),
+        profiles=dict(quick=[('spec', 12, 1), ('pure', 2000, 1), ('policy', 200, 1)], thorough=[('spec', 120, 8), ('sched', 20, 2), ('smp', 60, 2), ('policy', 500, 2), ('frag', 20, 2)]),
         explanation='conformance theorems: every serialiser, key derivation, MAC input, counter, key-id choice, TLV/padding layout, SMP payload, armour, header, query, whitespace tag and fragment of the model equals an independent Lean formalisation of the protocol document (Props.C10, 98 theorems); executable tie: a reference implementation built only on that formalisation is given the logged secrets of real sessions and must rebuild every emitted message byte for byte, re-derive ssid, fingerprints and extra key, read every delivery, and its own messages (using the freedoms the document leaves) must be accepted and read exactly by the library',
         assumptions=['the formalisation of the protocol document (Otr/Spec.lean) is itself read and trusted', 'SHA-256/HMAC output lengths are hypotheses of two theorems', 'the reference has no SMP engine: SMP payloads are checked for shape and hash inputs by theorem', 'known finding: SMP abort TLV carries a 4-byte value (test-pinned)']),
 }
